@@ -6,6 +6,7 @@ import ExecModel.Props.C15
 import ExecModel.Props.C17
 import ExecModel.Lts.SysExplore
 import ExecModel.Args
+import ExecModel.Proofs.SysLiveDefs
 /-!
   `modeld` — line protocol driver: one JSON object per line in, one JSON value per line out.
   Every request carries `"op"`.  Anything not understood yields `{"error": "bad-op"}`; nothing is
@@ -309,7 +310,31 @@ def sysOps (op : String) (j : Json) : Except String (Option Json) := do
             ("state", jSysState s),
             ("enabled", Json.arr ((Sys.enabled c.cfg c.eval "CancelledError" s).map (fun p => Json.str (labelName p.1))).toArray)]
     pure (some (go (Sys.init c.cfg c.script) 0 labels))
+  | "sys_check_inv" =>
+    -- replay a trace and evaluate the executable protocol invariants (SysLiveDefs) in every state
+    let c ← parseSysCase j
+    let labels ← (← j.getObjValAs? (Array Json) "labels").toList.mapM parseLabel
+    let stepf := Sys.step c.cfg c.eval "CancelledError"
+    let bad (s : Sys.State Int String) : List String := ((Sys.liveInvList c.cfg s).filter (fun p => !p.2)).map (·.1)
+    let rec goInv (s : Sys.State Int String) (idx : Nat) : List (Sys.Label Int String) → Json
+      | [] =>
+        let en := Sys.enabled c.cfg c.eval "CancelledError" s
+        Json.mkObj [("accepted", true), ("steps", toJson idx), ("violated", Json.null),
+          ("stuck", Json.bool en.isEmpty), ("allAcceptedDone", Json.bool (Sys.allAcceptedDone s)),
+          ("mainFinished", Json.bool (Sys.mainFinished s)), ("noProcessAlive", Json.bool (Sys.noProcessAlive s)),
+          ("frontOpen", Json.bool s.frontOpen)]
+      | l :: ls => match stepf s l with
+        | some s' =>
+          match bad s' with
+          | [] => goInv s' (idx + 1) ls
+          | names => Json.mkObj [("accepted", true), ("violated", toJson names), ("index", toJson idx),
+              ("label", Json.str (labelName l)), ("state", jSysState s')]
+        | none => Json.mkObj [("accepted", false), ("index", toJson idx)]
+    match bad (Sys.init c.cfg c.script) with
+    | [] => pure (some (goInv (Sys.init c.cfg c.script) 0 labels))
+    | names => pure (some (Json.mkObj [("accepted", true), ("violated", toJson names), ("index", toJson (0 : Nat)), ("label", Json.str "init")]))
   | _ => pure none
+
 
 /-! ### Args: the two traversals of the dependency resolver -/
 
